@@ -529,6 +529,11 @@ def _process_worker(
                 mp.util.info("Memory leak detected: shutting down worker")
                 result_queue.put(pid)
                 with worker_exit_lock:
+                    # As for the other clean exits, stop the loky executors
+                    # running in this worker process (nested parallelism):
+                    # their workers would otherwise be joined forever when
+                    # this process exits.
+                    _python_exit()
                     mp.util.debug("Exit due to memory leak")
                     return
         else:
